@@ -245,6 +245,24 @@ func (e *Engine) evalSpec(env *SpecEnv, x spec.Expr) (Val, error) {
 		if f, ok := e.Specs[x.Fun]; ok {
 			return f(e, env, x.Args)
 		}
+		// application of a function-typed program variable: the same
+		// uninterpreted function a dynamic call produces
+		if v, ok, _ := env.lookup(x.Fun); ok && v.Ty != nil {
+			if sig, isSig := v.Ty.Underlying().(*types.Signature); isSig {
+				var args []Val
+				for _, a := range x.Args {
+					av, err := e.evalSpec(env, a)
+					if err != nil {
+						return Val{}, err
+					}
+					args = append(args, av)
+				}
+				if sig.Results().Len() != 1 {
+					return Val{}, fmt.Errorf("spec: %s has %d results; use applyN(%s, i, args...)", x.Fun, sig.Results().Len(), x.Fun)
+				}
+				return e.applyTerm(v, args, sig, 0), nil
+			}
+		}
 		return e.specCallPure(env, x)
 	}
 	return Val{}, fmt.Errorf("spec: unsupported expression %T", x)
